@@ -261,7 +261,7 @@ pub fn run(args: &Args) {
     start_watchdog(&args.out);
     let mut rng = Rng::new(args.seed);
     let targets = all_targets();
-    let per_unit: u64 = if args.tier_thorough { 60_000 } else { 4_000 };
+    let per_unit: u64 = if args.tier_thorough { 250_000 } else { 10_000 };
     for t in &targets {
         let mut r = rng.fork();
         fuzz_target(&mut run, t, &mut r, per_unit * t.weight, args.tier_thorough);
